@@ -44,15 +44,20 @@ int apply_data(point<double> *dest, const span<const linepart> &pts, const trans
 		
 		if (lp) {
 			for (int j = 0; j < plen; j++) {
+				// part ends behind the remaining data
 				if (max < lp[j].usr) {
 					tmp = lp[j];
 					tmp.usr = max;
+					tmp._trim = 0;
 					tr.apply(i, tmp, to, from);
 					break;
 				}
 				tr.apply(i, lp[j], to, from);
 				to   += lp[j].usr;
 				from += lp[j].raw;
+				if ((max -= lp[j].raw) <= 0) {
+					break;
+				}
 			}
 		}
 		else {
